@@ -394,7 +394,10 @@ class _Files:
         if self.mode in ("bytesio", "enc_utf8", "enc_latin1"):
             return io.BytesIO(self.content)
         if self.tmp is None:
-            self.tmp = tempfile.TemporaryDirectory(prefix="c19_")
+            base = os.path.join(os.environ.get("VERIF_BUILD") or os.path.join(
+                os.path.dirname(os.path.dirname(os.path.abspath(__file__))), "build"), "tmp_c19")
+            os.makedirs(base, exist_ok=True)           # real files live under /verif/build (git-ignored), not /tmp
+            self.tmp = tempfile.TemporaryDirectory(prefix="c19_", dir=base)
             self.path = os.path.join(self.tmp.name, "data")
             with open(self.path, "wb") as f:
                 f.write(self.content)
